@@ -6,7 +6,12 @@
 (*        last persisted index; reopening succeeds.                                             *)
 (*   C36  after any removal of WAL segments (flush, watchdog, recovery) every acknowledged      *)
 (*        write and every untruncated raft entry is still recovered.                            *)
-(* An operation whose call had not returned at the crash may or may not have taken effect.      *)
+(*        A snapshot (ApplySnapshot) restarts the log after its index: the reopened storage     *)
+(*        reports that snapshot (index, term), a first index not above the first untruncated    *)
+(*        entry, and the entries appended after it.                                             *)
+(* Several raft groups share the WAL; each group is judged on its own, and a mismatch reports   *)
+(* WHICH groups (0 = the LSM contents) contradict the reference, under both readings of an      *)
+(* operation whose call had not returned at the crash (it may or may not have taken effect).    *)
 EXTENDS Integers, Sequences, FiniteSets, TLC, Json, IOUtils
 
 Trace == ndJsonDeserialize(IOEnv.TRACE)
@@ -14,12 +19,12 @@ NOTFOUND == "NOTFOUND"
 NoOp == [e |-> "none"]
 
 VARIABLES l, prop, kv, rf, pend
-\* kv: [key -> value] of acknowledged puts;  rf: [group -> [log, last, trunc, term, vote, commit]]
+\* kv: [key -> value] of acknowledged puts;  rf: [group -> [log, last, trunc, term, vote, commit, si, st]]
 vars == <<l, prop, kv, rf, pend>>
 
 EmptyFn == [x \in {} |-> 0]
 Upd(f, k, v) == [x \in (DOMAIN f) \cup {k} |-> IF x = k THEN v ELSE f[x]]
-NoGroup == [log |-> EmptyFn, last |-> 0, trunc |-> 0, term |-> 0, vote |-> 0, commit |-> 0]
+NoGroup == [log |-> EmptyFn, last |-> 0, trunc |-> 0, term |-> 0, vote |-> 0, commit |-> 0, si |-> 0, st |-> 0]
 G(f, g) == IF g \in DOMAIN f THEN f[g] ELSE NoGroup
 
 Init == l = 1 /\ prop = "C21" /\ kv = EmptyFn /\ rf = EmptyFn /\ pend = NoOp
@@ -37,18 +42,24 @@ AppendEnts(gr, ents) ==
                                IF i \in keep THEN gr.log[i] ELSE ents[CHOOSE k \in 1..n : ents[k].i = i].t],
                   !.last = ents[n].i]
 
+\* ApplySnapshot(idx, term): everything up to idx is covered by the snapshot, everything after it is dropped
+SnapTo(gr, idx, term) ==
+    [gr EXCEPT !.log = [i \in {j \in DOMAIN gr.log : j <= idx} |-> gr.log[i]],
+               !.last = idx, !.trunc = idx, !.si = idx, !.st = term]
+
 ApplyKV(f, op) == IF op.e = "PutCall" THEN Upd(f, op.k, op.v) ELSE f
 ApplyRF(f, op) ==
     CASE op.e = "RaftAppendCall" -> Upd(f, op.g, AppendEnts(G(f, op.g), op.ents))
       [] op.e = "RaftHSCall"     -> Upd(f, op.g, [G(f, op.g) EXCEPT !.term = op.term, !.vote = op.vote, !.commit = op.commit])
+      [] op.e = "RaftSnapCall"   -> Upd(f, op.g, SnapTo(G(f, op.g), op.idx, op.term))
       [] OTHER                   -> f
 
 Reset == IsEvent("Reset") /\ prop' = "C21" /\ kv' = EmptyFn /\ rf' = EmptyFn /\ pend' = NoOp
 Cfg   == IsEvent("Cfg") /\ prop' = ev.prop /\ UNCHANGED <<kv, rf, pend>>
-Call  == /\ l <= Len(Trace) /\ ev.e \in {"PutCall", "RaftAppendCall", "RaftHSCall"} /\ l' = l + 1
+Call  == /\ l <= Len(Trace) /\ ev.e \in {"PutCall", "RaftAppendCall", "RaftHSCall", "RaftSnapCall"} /\ l' = l + 1
          /\ pend' = ev /\ UNCHANGED <<prop, kv, rf>>
 \* a returned call: success applies it; an error must leave no trace
-Ret   == /\ l <= Len(Trace) /\ ev.e \in {"PutRet", "RaftAppendRet", "RaftHSRet"} /\ l' = l + 1
+Ret   == /\ l <= Len(Trace) /\ ev.e \in {"PutRet", "RaftAppendRet", "RaftHSRet", "RaftSnapRet"} /\ l' = l + 1
          /\ kv' = IF ev.ok THEN ApplyKV(kv, pend) ELSE kv
          /\ rf' = IF ev.ok THEN ApplyRF(rf, pend) ELSE rf
          /\ pend' = NoOp /\ UNCHANGED prop
@@ -61,23 +72,30 @@ Maint == IsEvent("Maint") /\ UNCHANGED <<prop, kv, rf, pend>>
 KvOK(f, dump) == \A k \in DOMAIN f : dump[k] = f[k]
 LogOK(gr, rec) ==
     /\ rec.last = gr.last
+    /\ rec.first <= gr.trunc + 1
     /\ \A i \in DOMAIN gr.log : (i > gr.trunc /\ i <= gr.last) =>
            \E j \in 1..Len(rec.ents) : rec.ents[j].i = i /\ rec.ents[j].t = gr.log[i]
 HsOK(gr, rec) == rec.term = gr.term /\ rec.vote = gr.vote /\ rec.commit = gr.commit
+SnapOK(gr, rec) == rec.si = gr.si /\ rec.st = gr.st
 GroupOK(f, rec) ==
     LET gr == G(f, rec.g) IN
-    IF prop = "C21" THEN rec.open /\ HsOK(gr, rec) /\ LogOK(gr, rec)
+    IF prop = "C21" THEN rec.open /\ HsOK(gr, rec) /\ SnapOK(gr, rec) /\ LogOK(gr, rec)
     \* C36: every untruncated entry is still physically present in a surviving WAL segment
     ELSE \A i \in DOMAIN gr.log : (i > gr.trunc /\ i <= gr.last) =>
              \E j \in 1..Len(rec.disk) : rec.disk[j].i = i /\ rec.disk[j].t = gr.log[i]
-StateOK(fkv, frf) ==
-    /\ (prop = "C36" => KvOK(fkv, ev.lsm))
-    /\ \A j \in 1..Len(ev.raft) : GroupOK(frf, ev.raft[j])
+\* who contradicts the reference (fkv, frf): 0 = the LSM contents, g = raft group g
+Bad(fkv, frf) ==
+    (IF prop = "C36" /\ ~KvOK(fkv, ev.lsm) THEN {0} ELSE {})
+    \cup {ev.raft[j].g : j \in {x \in 1..Len(ev.raft) : ~GroupOK(frf, ev.raft[x])}}
 
 Recovered ==
     /\ IsEvent("Recovered")
     /\ Expect(ev.open, TRUE)
-    /\ ev.open => Expect(StateOK(kv, rf) \/ (pend # NoOp /\ StateOK(ApplyKV(kv, pend), ApplyRF(rf, pend))), TRUE)
+    /\ ev.open =>
+         LET b0 == Bad(kv, rf)
+             b1 == IF pend # NoOp THEN Bad(ApplyKV(kv, pend), ApplyRF(rf, pend)) ELSE b0
+         \* TLC explores every disjunct of an action: the print must be guarded by the negation
+         IN (b0 = {} \/ b1 = {}) \/ (b0 # {} /\ b1 # {} /\ PrintT(<<"MISMATCH", l, <<b0, b1>>>>))
     /\ UNCHANGED <<prop, kv, rf, pend>>
 
 Next == Reset \/ Cfg \/ Call \/ Ret \/ Compact \/ Maint \/ Recovered
